@@ -126,7 +126,13 @@ def cases(tier, seed, i, n):
             # hours of outage: thousands of consecutive failed attempts
             yield dict(kind='stub', outcomes=['connect_fail'], mn=mn, mx=mx, mode=mode, rseed=7, exit_at=None, attempts=2500,
                        kw=dict(poll=5, ping_rate=30, ping_timeout=None))
-        for _ in range(3000 if tier == 'quick' else 1000000):
+        def sim_case():
+            return dict(kind='sim', rseed=rnd.randrange(1 << 30), attempts=rnd.randint(2, 8), mn=rnd.choice((0, 1, 5)),
+                        mxd=rnd.choice((0, 3, 25)), exit_at=rnd.choice((None, 1, 3)))
+        for r in range(200):
+            yield sim_case()
+        yield dict(kind='default-event', attempts=5)
+        for r in range(3000 if tier == 'quick' else 1000000):
             mn = rnd.choice((0, 0.1, 1, 5, 17))
             mx = mn + rnd.choice((0, 0.5, 1, 2, 3, 7.5, 25, 100, 5000))
             L = rnd.randint(1, 30)
@@ -134,10 +140,8 @@ def cases(tier, seed, i, n):
                        mode=rnd.choice(('rand', 'rand', 'extremes')), rseed=rnd.randrange(1 << 30),
                        exit_at=rnd.choice((None, None, rnd.randint(0, 50))), attempts=rnd.choice((20, 60, 300)),
                        kw=dict(poll=rnd.choice((5, 1, 0.2)), ping_rate=rnd.choice((30, 0, 2)), ping_timeout=rnd.choice((None, 10))))
-        for r in range(200 if tier == 'quick' else 100000):
-            yield dict(kind='sim', rseed=rnd.randrange(1 << 30), attempts=rnd.randint(2, 8), mn=rnd.choice((0, 1, 5)),
-                       mxd=rnd.choice((0, 3, 25)), exit_at=rnd.choice((None, 1, 3)))
-        yield dict(kind='default-event', attempts=5)
+            if tier == 'thorough' and r % 10 == 0:
+                yield sim_case()
     return gen.shard(allcases(), i, n)
 
 
